@@ -188,6 +188,10 @@ def gen_project(rng, idx, shape=None):
         docs[f] = {"style": rng.choice(["line", "line", "block"]), "lines": texts.pop()}
     if docs and rng.random() < 0.35:
         docs[rng.choice(sorted(docs))] = {"style": "empty", "lines": []}
+    # platform- and tag-constrained files with targets in some imported packages (always in one)
+    for k, path in enumerate(bsorted(pkgs)):
+        if k == 0 or rng.random() < 0.3:
+            pkgs[path]["constrained"] = k
     # the name a file gives a tagged import in Go code: `_` (never referred to), the package's own name, or a renamed
     # import.  Different files may use the same local name for different packages (import names have file scope);
     # the code that exists resolves `pkg.Func` in Default/Aliases by PACKAGE name against the collected imports and
@@ -255,6 +259,23 @@ def pkg_text(p):
     return "\n".join(lines) + "\n"
 
 
+HOST = {"GOOS": "linux", "GOARCH": "amd64"}          # set from `go env` in run()
+
+
+def pkg_files(p):
+    """{file name: text} of an imported package: x.go, and for p["constrained"] = k a host-only file (target OnHost<k>),
+    a windows-only file (OnWindows<k>) and a file behind the build tag t (Tagged<k>)"""
+    out = {"x.go": pkg_text(p)}
+    k = p.get("constrained")
+    if k is not None:
+        one = lambda tag, fn: "%spackage %s\n\n// %s is there for some builds only.\nfunc %s() error { return nil }\n" % (tag, p["name"], fn, fn)
+        out["x_%s.go" % HOST["GOOS"]] = one("", "OnHost%d" % k)
+        other = "windows" if HOST["GOOS"] != "windows" else "linux"
+        out["x_%s.go" % other] = one("", "OnWindows%d" % k)
+        out["x_tag.go"] = one("//go:build t\n// +build t\n\n", "Tagged%d" % k)
+    return out
+
+
 def gen_history(rng, pr):
     """states of ONE imported package while the magefiles stay byte-identical: the original, a target added,
     that target renamed + the doc comment of another changed, the original again"""
@@ -316,7 +337,8 @@ def render(pr, order=None):
                 lines.append("}\n")
         out[f] = "\n".join(lines) + "\n"
     for path, p in pr["pkgs"].items():
-        out[path + "/x.go"] = pkg_text(p)
+        for fn_, text in pkg_files(p).items():
+            out[path + "/" + fn_] = text
     out["go.mod"] = projlib.GO_MOD % (pr["name"], REPO)
     names = list(out)
     if order == "reverse":
@@ -510,6 +532,7 @@ def subprocess_rm(path):
     shutil.rmtree(path, ignore_errors=True)
 
 
+TAGS_LABEL = "GOFLAGS=-mod=mod -tags=t -l"
 KNOWN_ENV = {"MAGEFILE_VERBOSE": "1", "MAGEFILE_DEBUG": "1", "MAGEFILE_LIST": "1", "MAGEFILE_HELP": "1", "MAGEFILE_IGNOREDEFAULT": "1",
              "MAGEFILE_TIMEOUT": "10m", "MAGEFILE_ENABLE_COLOR": "1", "MAGEFILE_TARGET_COLOR": "Red", "MAGEFILE_GOCMD": "go", "MAGEFILE_HASHFAST": "1"}
 
@@ -540,6 +563,15 @@ def run_invocations(ctx, mage, wrap, d, pr, names):
         else:
             for val in ([tgt] if tgt else []) + ["1", "true", "10m"]:
                 plan.append(("%s=%s -l" % (n, val), d, ["-l"], {n: val}))
+    # the environment the go tool reads: mage pins GOOS/GOARCH of its own go commands to the host, so none of these may
+    # reach the generated source (imported packages have host-only, windows-only and tag-only files with targets)
+    other_os = "windows" if HOST["GOOS"] != "windows" else "linux"
+    for label, envx in [("GOOS=" + other_os, {"GOOS": other_os}), ("GOOS=host", {"GOOS": HOST["GOOS"]}), ("GOARCH=mips GOOS=linux", {"GOOS": "linux", "GOARCH": "mips"}),
+                        ("GOOS=nonsense", {"GOOS": "nonsense"}), ("GOARCH=nonsense", {"GOARCH": "nonsense"}), ("CGO_ENABLED=1", {"CGO_ENABLED": "1"}),
+                        ("GOPATH elsewhere", {"GOPATH": os.path.join(ctx.tmp, "gopath_elsewhere")}), ("GO111MODULE=on", {"GO111MODULE": "on"}),
+                        ("GO111MODULE=auto", {"GO111MODULE": "auto"})]:
+        plan.append((label + " -l", d, ["-l"], envx))
+    plan.append((TAGS_LABEL, d, ["-l"], {"GOFLAGS": "-mod=mod -tags=t"}))
     plan.append(("all known variables set -l", d, ["-l"], {k: v for k, v in KNOWN_ENV.items() if k not in ("MAGEFILE_HASHFAST", "MAGEFILE_HELP")}))
     plan.append(("other MAGEFILE_CACHE -l", d, ["-l"], {"MAGEFILE_CACHE": os.path.join(ctx.tmp, "inv_cache2_" + pr["name"])}))
     res = []
@@ -548,11 +580,48 @@ def run_invocations(ctx, mage, wrap, d, pr, names):
         if os.path.exists(main):
             os.remove(main)
         r = mage.run(cwd, ["-keep"] + args, env=envx, cache=cache, timeout=300, stdin=b"")
-        sha = None
+        sha, targets = None, None
         if os.path.exists(main):
-            sha = hashlib.sha1(open(main, "rb").read()).hexdigest()
+            b = open(main, "rb").read()
+            sha = hashlib.sha1(b).hexdigest()
+            if label in ("-l", TAGS_LABEL):
+                targets = [t for t, _ in read_main(b.decode("utf-8", "replace"))["targets"]]
             os.remove(main)
-        res.append((label, sha, r["rc"]))
+        res.append((label, sha, r["rc"], targets))
+    return res
+
+
+def run_locations(ctx, mage, pr):
+    """the project's LOCATION as a dimension: identical copies in differently named directories, identical command lines"""
+    files = render(pr)
+    root = os.path.join(ctx.tmp, "loc_" + pr["name"])
+    locs = [("proj", "proj"), ("proj-ci", "proj-ci"), ("a b", "a b"), ("deep path", "deep/er/path/here"), ("via symlink", None)]
+    res = []
+    for label, rel in locs:
+        if rel is None:
+            real = os.path.join(root, "real-checkout")
+            d = os.path.join(root, "link")
+        else:
+            real = d = os.path.join(root, rel)
+        for relf, text in files.items():
+            q = os.path.join(real, relf)
+            os.makedirs(os.path.dirname(q), exist_ok=True)
+            with open(q, "w") as f:
+                f.write(text)
+        if rel is None:
+            os.symlink(real, d)
+        os.makedirs(os.path.join(real, "dist"))
+        main = os.path.join(real, MAINFILE)
+        cache = os.path.join(root, "cache_" + label.replace(" ", "_"))
+        for cmd in (["-l"], ["-compile", "./out.bin"], ["-compile", "dist"], ["-compile", "rel" + os.sep], ["-compile", os.path.join("sub", "tool")]):
+            if os.path.exists(main):
+                os.remove(main)
+            r = mage.run(d, ["-keep"] + cmd, cache=cache, timeout=600)
+            sha = None
+            if os.path.exists(main):
+                sha = hashlib.sha1(open(main, "rb").read()).hexdigest()
+                os.remove(main)
+            res.append({"location": label, "cmd": " ".join(cmd), "sha1": sha, "rc": r["rc"]})
     return res
 
 
@@ -742,6 +811,9 @@ def run(ctx):
     rng = ctx.rng
     mage = projlib.Mage(ctx)
     binp = go_build_harness(ctx, "unitrun")
+    rc_, out_, _ = sh(["go", "env", "GOOS", "GOARCH"], env=goenv(), timeout=60)
+    if rc_ == 0 and len(out_.split()) == 2:
+        HOST["GOOS"], HOST["GOARCH"] = out_.split()
     quick = ctx.quick
     nproj = 8 if quick else 40
     ncompile = 1 if quick else 4
@@ -749,6 +821,7 @@ def run(ctx):
     reps, nprocs = (30, 4) if quick else (125, 4)      # beyond a few hundred repetitions nothing is gained: (7/8)^500 < 1e-28
     nhist = 3 if quick else 8
     ninv = 2 if quick else 6
+    nloc = 1 if quick else 3
     projects, compile_projects = [], []
     if ctx.replay and ctx.replay.get("case"):
         c = ctx.replay["case"]
@@ -796,6 +869,8 @@ def run(ctx):
         if not pr.get("error"):
             tasks.append((pi, "A", lambda da=da: fresh_runs(mage, da, runs_a, os.path.join(ctx.tmp, "cache_a"))))
             tasks.append((pi, "B", lambda db=db: fresh_runs(mage, db, runs_b, os.path.join(ctx.tmp, "cache_b"))))
+        if pi < nloc and not pr.get("error"):
+            tasks.append((pi, "L", lambda pr=pr: run_locations(ctx, mage, pr)))
         if pr["name"] + "/inv" in dirs:
             tasks.append((pi, "I", lambda pr=pr: run_invocations(ctx, mage, wrap, dirs[pr["name"] + "/inv"], pr, names_env)))
         if pr.get("history") and not pr.get("error"):
@@ -822,7 +897,7 @@ def run(ctx):
                     rep = order == "listed" and base == bases[0]        # the occupied-output repetitions: once per layout
                     tasks.append((("c", ci), "C", lambda cp=cp, layout=layout, order=order, base=base, rep=rep: run_compile(ctx, mage, wrap, cp, layout, order, base, rep)))
         tasks.append((("c", ci), "K", lambda cp=cp: run_cache_attrs(ctx, mage, cp)))
-    tasks.sort(key=lambda t: t[1] not in ("I", "H", "C", "K"))          # the histories are the longest tasks: start them first
+    tasks.sort(key=lambda t: t[1] not in ("I", "L", "H", "C", "K"))          # the histories are the longest tasks: start them first
     ctx.log("projects created; %d tasks" % len(tasks))
     import time as _t
     def timed(t):
@@ -846,6 +921,7 @@ def run(ctx):
     build_failures = []
     hist_gens, hist_cov = 0, {}
     inv_runs, inv_nogen = 0, []
+    loc_runs = 0
     cross_gens = 0
     n_oracle = 0
     cov = ctx.coverage
@@ -927,8 +1003,14 @@ def run(ctx):
         # ---- oracle 7: the invocation (flags, environment) must not reach the generated source
         if "I" in r:
             shas = {}
-            for label, sha, rc in r["I"]:
+            base_t = tag_t = None
+            for label, sha, rc, targets in r["I"]:
                 inv_runs += 1
+                if label == "-l":
+                    base_t = targets
+                if label == TAGS_LABEL:
+                    tag_t = targets
+                    continue                      # judged below: the tag legitimately changes the compiled file set
                 if sha is None:
                     inv_nogen.append(label)
                 else:
@@ -940,6 +1022,31 @@ def run(ctx):
                 ref = max(shas.values(), key=len)
                 ctx.violation({"kind": "oracle", "clause": "the kept generated source differs between invocations (flags / environment) of mage on the same magefiles",
                                "deviating_invocations": {k[:10]: v for k, v in shas.items() if v is not ref}, "agreeing": len(ref)}, case=case)
+            # GOFLAGS=-tags=t: the go tool's own listing under these flags includes x_tag.go of the constrained packages,
+            # so exactly their Tagged<k> targets are added, once per import of the package
+            if base_t is not None and tag_t is not None:
+                want_new = sorted((i["alias"] + ":" if i["alias"] else "") + "Tagged%d" % pr["pkgs"][i["path"][len("example.test/" + pr["name"]) + 1:]]["constrained"]
+                                  for i in proj["imports"] if pr["pkgs"].get(i["path"][len("example.test/" + pr["name"]) + 1:], {}).get("constrained") is not None)
+                got_new = sorted(set(tag_t) - set(base_t))
+                if (got_new != want_new or not set(base_t) <= set(tag_t)) and n_oracle < 5:
+                    n_oracle += 1
+                    ctx.violation({"kind": "oracle", "clause": "with GOFLAGS=-tags=t the targets of the generated main are not those of the plain run plus the targets of the files the go tool adds under that tag",
+                                   "added": got_new, "expected_added": want_new, "lost": sorted(set(base_t) - set(tag_t))}, case=case)
+        # ---- oracle 8: the location of the checkout must not reach the generated source
+        if "L" in r:
+            shas = {}
+            for x in r["L"]:
+                loc_runs += 1
+                if x["sha1"]:
+                    shas.setdefault(x["sha1"], []).append("%s: %s" % (x["location"], x["cmd"]))
+            bycmd = {}
+            for x in r["L"]:
+                bycmd.setdefault(x["cmd"], set()).add(x["sha1"])
+            bad = {c: len(v) for c, v in bycmd.items() if len(v) > 1}
+            if bad and n_oracle < 5:
+                n_oracle += 1
+                ctx.violation({"kind": "oracle", "clause": "identical copies of the project in differently named directories, identical command line: the kept generated source differs",
+                               "commands_with_several_sources": bad, "runs_by_source": {k[:10]: v for k, v in shas.items()}}, case=case)
         # ---- oracle 5: two projects in one process (same module path and import paths, one imported package differs)
         if "X" in r:
             seq, fresh_var = r["X"]
@@ -1093,6 +1200,7 @@ def run(ctx):
     if build_failures and not ctx.violations:
         raise BuildError("; ".join(build_failures)[:3000])
     cov["cross_project_generations"] = cross_gens
+    cov["location_runs"] = loc_runs
     cov["invocation_runs"] = inv_runs
     cov["invocation_environment_names"] = names_env
     cov["invocations_without_generation"] = sorted(set(inv_nogen))
@@ -1104,7 +1212,7 @@ def run(ctx):
     cov["history_generations"] = hist_gens
     cov["history_states"] = hist_cov
     cov["histories"] = sum(1 for p in projects if p.get("history") and not p.get("error"))
-    cov["evaluations"] = tot_runs + tot_reps + hist_gens + cross_gens + compile_runs + occupied_runs + cache_runs + inv_runs
+    cov["evaluations"] = tot_runs + tot_reps + hist_gens + cross_gens + compile_runs + occupied_runs + cache_runs + inv_runs + loc_runs
     cov["distinct_nontrivial"] = nontriv
     cov["rule"] = ("one evaluation = one generation of the main file (a fresh `mage -keep -l` process, or one in-process parse.PrimaryPackage+sort(+render) repetition); "
                    "distinct = generated projects; non-trivial = at least one competing pair (equal package names among named or among root imports, one path with two aliases, or two non-empty package comments)")
